@@ -1,4 +1,3 @@
 package main
 
 type C06Plan struct{}
-type C12Plan struct{}
